@@ -13,6 +13,7 @@
 #include <unistd.h>
 
 #include "c12_request.h"
+#include "http_file_buffer.h"   // after the public headers: it opens namespace cppcms::http::impl
 
 static std::string tmpdir_ok, tmpdir_bad;
 
@@ -141,8 +142,53 @@ static std::string run_ct(std::vector<std::string> const &w)
 	return vh::hex(a.media_type())+" "+pairs_str(mm);
 }
 
+// fb <limit> <diskOk> <data> <ops>: the real file_buffer; ops = comma separated write sizes (0 = one sputc, k = sputn of k bytes);
+// after every write: in_memory()/size()/bytes accepted; then the content read back from offset 0
+static std::string run_fb(std::vector<std::string> const &w)
+{
+	std::string data;
+	if(!vh::unhex(w[3],data)) return "bad-op";
+	size_t limit=strtoull(w[1].c_str(),0,10);
+	std::ostringstream out;
+	std::string name;
+	{
+		cppcms::http::impl::file_buffer fb(limit);
+		fb.temp_dir(w[2]=="1" ? tmpdir_ok : tmpdir_bad);
+		size_t pos=0;
+		std::istringstream ops(w[4]);
+		std::string tok;
+		bool first=true;
+		while(std::getline(ops,tok,',')) {
+			size_t k=strtoull(tok.c_str(),0,10);
+			size_t want = k==0 ? 1 : k;
+			if(pos+want>data.size()) break;
+			// exact-size copy: ASan sees reads past the chunk
+			std::vector<char> chunk(data.begin()+pos,data.begin()+pos+want);
+			long long got;
+			if(k==0) got = fb.sputc(chunk[0])==EOF ? 0 : 1;
+			else got = fb.sputn(chunk.data(),k);
+			pos+=want;
+			if(!first) out<<' ';
+			first=false;
+			out<<(fb.in_memory()?1:0)<<'/'<<fb.size()<<'/'<<got;
+			if(got!=(long long)want) break;
+		}
+		std::string back;
+		if(fb.pubseekpos(0,std::ios_base::in)!=std::streampos(std::streamoff(-1)) || fb.size()==0) {
+			int c;
+			while((c=fb.sbumpc())!=EOF) back+=char(c);
+		}
+		out<<" R "<<vh::hex(back);
+		name=fb.name();
+		fb.close();
+	}
+	if(!name.empty()) ::unlink(name.c_str());   // file_buffer itself never removes its file (http::file::close does)
+	return out.str();
+}
+
 static std::string run(std::vector<std::string> const &w)
 {
+	if(w.size()==5 && w[0]=="fb") return run_fb(w);
 	if(w.size()>=4 && w[0]=="mp") return run_mp(w);
 	if(w.size()==2 && w[0]=="ct") return run_ct(w);
 	if(w.size()>=10 && w[0]=="rq") return c12_run_request(w,tmpdir_ok,tmpdir_bad);
